@@ -374,6 +374,33 @@ func cmdCheck(args []string) int {
 				continue
 			}
 		}
+		if o == nil && strings.Contains(n, "/loop") && (strings.Contains(n, "/inv-init#") || strings.Contains(n, "/inv-preserved#")) {
+			// obligations of an invariant that was dropped (names a vanished variable)
+			skip := false
+			for _, u := range units {
+				if len(u.errs) != 0 || !strings.HasPrefix(n, u.name+"/loop") {
+					continue
+				}
+				for _, nt := range u.notes {
+					if strings.Contains(nt, "dropped: ") {
+						var k, idx int
+						rest := n[len(u.name)+len("/loop"):]
+						fmt.Sscanf(rest, "%d", &k)
+						if j := strings.Index(rest, "#"); j >= 0 {
+							fmt.Sscanf(rest[j+1:], "%d", &idx)
+						}
+						if strings.HasPrefix(nt, fmt.Sprintf("loop %d invariant ", k)) && u.droppedInv[[2]int{k, idx}] {
+							skip = true
+						}
+					}
+				}
+			}
+			if skip {
+				nClaimed--
+				gone = append(gone, n)
+				continue
+			}
+		}
 		if o == nil && strings.Contains(n, "/loop") {
 			// obligations of a loop that no longer exists (see verify.go): dropped if the unit
 			// was generated without errors
